@@ -2,7 +2,7 @@
 //! `render()` (or the Batch / Camera front doors), print buffers and statistics.
 //!
 //! case (key=value tokens, any order before the data sections):
-//!   scene door=<r|b|B|c> tgt=<fb|cb> dims=<W>x<H> vp=<l>,<t>,<r>,<b> cull=<n|f|b> sort=<n|f|b>
+//!   scene door=<r|b|B|c|C> tgt=<fb|cb> dims=<W>x<H> vp=<l>,<t>,<r>,<b> cull=<n|f|b> sort=<n|f|b>
 //!         test=<n|l|g|e> cw=<0|1> dw=<0|1> sh=<0|1> k=<1|2|3|4> sel=<0..k-1>   (k: 1 f32, 2 Vec2, 3 (Vec2, f32), 4 Color4f)
 //!         proj=<none | persp,<focal>,<near>,<far> | ortho,<l>,<b>,<n>,<r>,<t>,<f>> zinit=<f32 bits>
 //!         v <nv> <nv*(4+k) words>  t <nt> <nt*3 idx>  h <ncalls> { <sort> <m> <m idx> }*
@@ -260,11 +260,18 @@ pub fn run_scene(s: &Scene, door: char) -> Output {
                                     .context(&ctx)
                                     .render()
                             }
-                            'c' => {
-                                // identity camera: vertices are already in clip space
-                                let cam = Camera::new((s.w, s.h))
-                                    .mode(Mat4x4::<RealToReal<3, World, View>>::identity())
-                                    .viewport((s.vp[0]..s.vp[2], s.vp[1]..s.vp[3]));
+                            'c' | 'C' => {
+                                // identity camera: vertices are already in clip space; door C configures the
+                                // viewport BEFORE the mode (the builder calls commute)
+                                let cam = if door == 'c' {
+                                    Camera::new((s.w, s.h))
+                                        .mode(Mat4x4::<RealToReal<3, World, View>>::identity())
+                                        .viewport((s.vp[0]..s.vp[2], s.vp[1]..s.vp[3]))
+                                } else {
+                                    Camera::new((s.w, s.h))
+                                        .viewport((s.vp[0]..s.vp[2], s.vp[1]..s.vp[3]))
+                                        .mode(Mat4x4::<RealToReal<3, World, View>>::identity())
+                                };
                                 let vs2 = |v: $VT, _: (&Mat4x4<RealToProj<Model>>, ())| v;
                                 let shader2 = Shader::new(vs2, $fs);
                                 let to_world = Mat4x4::<RealToReal<3, Model, World>>::identity();
